@@ -5,7 +5,7 @@ Command language (shared by cdriver and crun):
    init <val>...      val := I <z> | B <counter> <ncells> <cell>...        (cell -1 = leave indeterminate)
    step <q> <sym>     forced-state single step (sym 256 = end of input)
    stepn <q> <n> <byte>...   forced state, one feed call on an n-byte chunk
-   run <nchunks> <len>... <byte>... <endflag>
+   run <nchunks> <len>... <byte>... <mode>      mode bit 0: call end() afterwards; bit 1: keep calling after a terminal result
 Result lines:  <code> <state> <consumed> | <outs> | <hooks>      (or UNDEF from the model)
 """
 import os, subprocess, shutil, re, hashlib
@@ -219,13 +219,14 @@ def driver_source(name, m, flags):
     L.append("    else if (!strcmp(cmd, \"run\")) { long nch; if (scanf(\"%ld\", &nch) != 1) exit(3); long lens[256]; long tot = 0; for (long i = 0; i < nch; i++) { if (scanf(\"%ld\", &lens[i]) != 1) exit(3); tot += lens[i]; }")
     L.append("      for (long i = 0; i < tot; i++) { long c; if (scanf(\"%ld\", &c) != 1) exit(3); buf[i] = (unsigned char)c; } long endflag; if (scanf(\"%ld\", &endflag) != 1) exit(3);")
     L.append("      /* every run starts from the init data: the driver keeps a pristine copy */")
-    L.append("      memset(&st, 0, sizeof st); hooklen = 0; hooklog[0] = 0; int c = %s_start(&st); set_hooks(); report(c, 0); int stop = (c != %s_OK);" % (P, U))
+    L.append("      memset(&st, 0, sizeof st); hooklen = 0; hooklog[0] = 0; int c = %s_start(&st); set_hooks(); report(c, 0); int keep = (endflag & 2) != 0; int stop = (c != %s_OK) && !keep;" % (P, U))
     L.append("      long off = 0; for (long i = 0; i < nch && !stop; i++) { const uint8_t *base = buf + off; const uint8_t *cur = base; const uint8_t *end = base + lens[i]; off += lens[i];")
     L.append("        for (;;) { const uint8_t *before = cur; c = %s; report(c, %s);" % (feed_call, "(long)(cur - before)" if indirect else "-1"))
-    L.append("          if (is_yield(c)) { %s continue; } if (c != %s_OK) stop = 1; break; } }" % ("if (cur == end && !%d) break;" % (1 if m["end_check"] else 0), U))
-    L.append("      if (endflag && !stop) { %s }" % (("c = %s_end(&st); report(c, 0);" % P) if eof else ""))
+    L.append("          if (is_yield(c)) { %s continue; } if (c != %s_OK && !keep) stop = 1; break; } }" % ("if (cur == end && !%d) break;" % (1 if m["end_check"] else 0), U))
+    L.append("      if ((endflag & 1) && !stop) { %s }" % (("c = %s_end(&st); report(c, 0);" % P) if eof else ""))
     if dyn:
         L.append("      %s_free(&st);" % P)
+    L.append("      printf(\"--\\n\");")
     L.append("    }")
     L.append("    else { fprintf(stderr, \"bad command %s\\n\", cmd); return 3; } }")
     L.append("  return 0; }")
@@ -306,8 +307,23 @@ def compare(c_lines, m_lines, direct):
 # ---------------------------------------------------------------------------
 # inputs and data contexts
 # ---------------------------------------------------------------------------
-def random_input(m, rng, maxlen=24):
-    """random walk over the exported graph (conditions ignored): mostly-accepted inputs"""
+def special_bytes(I):
+    """byte values mentioned as literals in conditions / expressions of a compiled program ($last == 'f')"""
+    lits = set()
+    def collect(k):
+        if isinstance(k, tuple):
+            if len(k) == 2 and k[0] == "lit" and isinstance(k[1], int) and 0 <= k[1] < 256:
+                lits.add(k[1])
+            for x in k:
+                collect(x)
+    for info in I.test_info + I.prim_info:
+        collect(info.get("expr"))
+    return sorted(lits)
+
+
+def random_input(m, rng, maxlen=24, special=()):
+    """random walk over the exported graph (conditions ignored): mostly-accepted inputs; bytes that occur as
+    literals in the program's conditions are preferred when a transition admits them"""
     q = m["start"]
     out = []
     hops = 0
@@ -330,7 +346,8 @@ def random_input(m, rng, maxlen=24):
                     bs = [b for b in (list(range(97, 123)) + [32, 48, 0, 255]) if b not in used] or [rng.randrange(256)]
                 else:
                     break
-            out.append(rng.choice(bs))
+            sp = [b for b in bs if b in special]
+            out.append(rng.choice(sp) if sp and rng.random() < 0.5 else rng.choice(bs))
         gt = export_goto_targets(t["acts"])
         q = rng.choice(gt) if gt and rng.random() < 0.1 else t["tgt"]
     if rng.random() < 0.3:
@@ -385,3 +402,119 @@ def contexts(cp, rng, n_random=2):
                 c[o["name"]] = [rng.randrange(256) for _ in range(rng.choice([0, 1, sz]))]
         ctxs.append(c)
     return ctxs
+
+
+# ---------------------------------------------------------------------------
+# one-stop preparation of a program x option set
+# ---------------------------------------------------------------------------
+def prepare_compile(src, flags, max_states=None):
+    """(main thread: the compile helper uses SIGALRM) compile with the real compiler, export, print cfg"""
+    import nm
+    I = export.Interner()
+    r = nm.compile_source(src, flags, want_c=True, name="prog", interner=I)
+    out = {"ok": False, "verdict": r["verdict"], "why": r["message"], "flags": flags, "src": src}
+    if r["verdict"] != "ok":
+        return out
+    m = r["machines"]["post_optimize"]
+    if max_states and len(m["states"]) > max_states:
+        out["why"] = "too-large"
+        return out
+    cp = CfgPrinter(m, I, flags)
+    try:
+        cfg_text = cp.text()
+    except Exception as e:
+        out["why"] = "cfg-unsupported: %r" % e
+        return out
+    out.update(ok=True, m=m, I=I, cp=cp, cfg_text=cfg_text, dfa_text=export.text_dfa(m), c=r["c"], h=r["h"],
+               direct=not ("-findirect-start-ptr" in flags or "-fyield-support" in flags), eof="-feof-support" in flags)
+    return out
+
+
+def prepare_build(P, workdir, sanitize=False, cflags=("-O1",)):
+    """(any thread) generate + build the driver for a compiled program"""
+    if not P["ok"]:
+        return P
+    shutil.rmtree(workdir, ignore_errors=True)
+    rc, bout = build(workdir, "prog", P["c"], P["h"], driver_source("prog", P["m"], P["flags"]), sanitize=sanitize, cflags=cflags)
+    if rc != 0:
+        P = dict(P, ok=False, why="c-build-failed", build_output=bout[-800:])
+        shutil.rmtree(workdir, ignore_errors=True)
+        return P
+    return dict(P, wd=workdir)
+
+
+def prepare(src, flags, workdir, sanitize=False, max_states=None, cflags=("-O1",)):
+    return prepare_build(prepare_compile(src, flags, max_states), workdir, sanitize, cflags)
+
+
+def split_blocks(lines):
+    """result lines of consecutive `run` commands -> list of blocks (lists of lines), delimited by '--'"""
+    blocks, cur = [], []
+    for l in lines:
+        if l.strip() == "--":
+            blocks.append(cur); cur = []
+        else:
+            cur.append(l)
+    if cur:
+        blocks.append(cur)
+    return blocks
+
+
+def parse_line(l):
+    parts = [x.strip() for x in l.split("|")]
+    head = parts[0].split()
+    if len(head) != 3 or len(parts) < 3:
+        return None
+    try:
+        return {"code": head[0], "state": int(head[1]), "consumed": int(head[2]), "outs": parts[1], "hooks": parts[2]}
+    except ValueError:
+        return None
+
+
+def observation(block, direct):
+    """chunk-independent observation of one run: hook calls in order, every non-OK return with its absolute offset,
+    final outputs, final machine state"""
+    pos = 0
+    hooks, rets = [], []
+    last = None
+    for i, l in enumerate(block):
+        p = parse_line(l)
+        if p is None:
+            return ("unparsable", l)
+        if i > 0 and not direct and p["consumed"] >= 0:
+            pos += p["consumed"]
+        if p["hooks"]:
+            hooks.append(p["hooks"])
+        if p["code"] != "OK":
+            rets.append((p["code"], None if direct else pos))
+        last = p
+    return (";".join(hooks), tuple(rets), last["outs"] if last else None, last["state"] if last else None,
+            last["code"] if last else None)
+
+
+def all_splits(n, rng, limit=40):
+    """compositions of n into positive chunk sizes: all of them when n is small, else whole / all-ones / single cuts / random"""
+    if n <= 1:
+        return [[n]] if n else [[]]
+    if n <= 6:
+        out = []
+        for mask in range(1 << (n - 1)):
+            lens, cur = [], 1
+            for i in range(n - 1):
+                if mask >> i & 1:
+                    lens.append(cur); cur = 1
+                else:
+                    cur += 1
+            lens.append(cur)
+            out.append(lens)
+        return out
+    out = [[n], [1] * n]
+    cuts = list(range(1, n))
+    rng.shuffle(cuts)
+    for c in cuts[:12]:
+        out.append([c, n - c])
+    for _ in range(limit - len(out)):
+        k = rng.randint(2, min(6, n))
+        cs = sorted(rng.sample(range(1, n), k - 1))
+        out.append([b - a for a, b in zip([0] + cs, cs + [n])])
+    return out
